@@ -12,6 +12,11 @@ CHECKS = {
   note="Partial: Safe programs of the core fragment. The recorded finding (grouping lost in infix emission, pinned by the `operators` snapshot) is reproduced exactly by the re-reading model on every unsafe program; a wrong result that the model does not explain, or on a Safe program, is a violation. Rust's meaning of the core constructs is trusted and validated by running. One fix: commit recorded under C13 (user methods named like builtins were silently not called).",
   technique="Lean 4 proof (mutual structural induction over statements/blocks/else-chains; order lemmas; finite precedence tables) + compiled-program correspondence with a re-reading model + CPython oracle",
   ref="C01"),
+ "C02": dict(
+  text="Lean 4 theorem `accepted_body_builds_partial` with its simulation lemmas (`bind_sim`, `stmt_sim`, `block_sim`, `else_sim`, `tyE_sim`, mutual structural induction over statements, blocks and else-chains of any depth): for function bodies of the core fragment, whatever the checker accepts (model chkS/chkB: check_assignment's same-block / enclosing-block / fresh-binding decision, mutability, condition and return types, helper operand types) is turned by lowering into Rust that meets rustc's requirements (model rustS/rustB: assignment only to a `let mut` of the same type, `let` for fresh names, block scoping incl. the extra block an `elif` becomes) — under a simulation relating the checker's scopes (with its shadow entries) to rustc's. The checker is taken with the comparison of the assigned type against an outer variable's type, which the implementation omits: `nested_retype_accepted` is the kernel-checked witness that the full statement fails, and a recorded finding.",
+  note="Partial by fragment: 19 further constructs that type-check but do not build are recorded findings, each with a probe program that runs on every check (a probe that starts to build simply stops printing). Multi-file layout is oracle-only.",
+  technique="Lean 4 proof (simulation between checker scopes and rustc scopes, mutual structural induction) + checker/build correspondence on generated variants + build oracle with per-construct probes",
+  ref="C02"),
  "C03": dict(
   text="Lean 4 theorems: `every_position_checked` — over function bodies of any shape and depth (mutual induction on expressions, statements and blocks) every expression position and every statement of every block is handed to the checker, given the role table that the correspondence validates role by role (kernel-checked witness `elif_was_skipped` for the table before the fix); `reassign_immutable_rejected` / `reassign_mutable_accepted` / `fresh_name_accepted` — a plain `x = value` is rejected exactly when the nearest `x` bound in this or any enclosing block of the function is immutable, at any nesting depth (witness `old_checker_missed_nested`); `omitted_variant_reported` / `complete_match_accepted` — a variant no arm names, in a match without catch-all, is reported missing, and a complete match is not. Which diagnostics each rule produces, and that they are located on the edited lines, is decided by editing real programs at every position and running the real checker.",
   note="Six fix: commits repaired gaps found by this check (elif branches, nested re-assignment, `?` outside Result functions, plain call arguments, match guards; plus the .clone() fix found under C20). Open finding: diagnostics inside compound f-string interpolations are located relative to the interpolation. Trait-adoption rules (declaration level) are not edited here.",
